@@ -133,7 +133,7 @@ class HistoryCheck(Check):
                 if kind in (0, 1):
                     roots = [i for i in all_ids if ops.chance(1, 3)] or [ops.pick(all_ids)]
                     bust = (kind == 1)
-                    backend = ops.pick(['serial', 'sim'])
+                    backend = ops.pick(['serial', 'sim', 'serial', 'sim', 'spawn', 'fork']) if provider != 'fsspec-mem' else ops.pick(['serial', 'sim'])
                     history.append(['run', roots, bust, backend])
                     probes['op-bust' if bust else 'op-run'] = 1
                     have = set() if provider == 'none' else set(model)
@@ -209,6 +209,9 @@ class HistoryCheck(Check):
                                 stored_any = True
                 elif kind == 2:
                     targets = [i for i in all_ids if ops.chance(1, 3)] or [ops.pick(all_ids)]
+                    if ops.chance(1, 3):
+                        # the same task named twice (the same object or an equal one)
+                        targets.insert(ops.draw(len(targets) + 1), ops.pick(targets))
                     history.append(['uncache', targets])
                     probes['op-uncache'] = 1
                     try:
@@ -321,6 +324,10 @@ class HistoryCheck(Check):
         probe_mod.set_active(lp)
         try:
             try:
+                # (the Lab object may still carry the process backend of the last simulated run: outside
+                # the simulation only the serial backend may be used)
+                from labtech.runners import SerialRunnerBackend
+                lab.runner_backend = SerialRunnerBackend()
                 res = lab.run_tasks(listed, disable_progress=True, disable_top=True)
             except Exception as ex:
                 return [O.V(self.id, 'probe-run-failed', f'step {step}: running the tasks returned by cached_tasks failed: '
